@@ -89,16 +89,24 @@ func encodeVersionDataBadField(shape int, magic uint32, which int) ([]byte, bool
 }
 
 // encodeVersionDataNullOrRange is version data of the right shape, length and
-// magic with a CBOR null in place of a boolean, or a peer-sharing value (99)
-// outside every version's range.
-func encodeVersionDataNullOrRange(shape int, magic uint32, which int) ([]byte, bool) {
+// magic with a CBOR null in place of a boolean, or a peer-sharing value outside
+// every version's range (99) or just outside the accepted version's range.
+func encodeVersionDataNullOrRange(shape int, magic uint32, which int, version uint16) ([]byte, bool) {
 	m := cborUint(nil, 0, uint64(magic))
 	switch shape {
 	case shapeNtCNew, shapeNtNOld:
 		return append(append([]byte{0x82}, m...), 0xf6), true
 	case shapeNtNNew:
 		b := append([]byte{0x84}, m...)
-		switch which % 4 {
+		switch which % 5 {
+		case 4:
+			// the smallest peer-sharing mode the accepted version does not have: 3 for versions
+			// 11 and 12 (no / private / public), 2 from version 13 on (no / public)
+			ps := byte(2)
+			if version == 11 || version == 12 {
+				ps = 3
+			}
+			return append(b, 0xf4, ps, 0xf4), true
 		case 0:
 			return append(b, 0xf6, 0x00, 0xf4), true // diffusion mode is null
 		case 1:
@@ -229,7 +237,7 @@ func hsAcceptSetup(s *rt.Sim, tier string) func() {
 			// second family (own stream): a null where a flag belongs, a peer-sharing value no
 			// version knows
 			if rt.Choose("op.x", 2) == 1 {
-				if b, ok := encodeVersionDataNullOrRange(shape, magic, rt.Choose("op.x", 4)); ok {
+				if b, ok := encodeVersionDataNullOrRange(shape, magic, rt.Choose("op.x", 5), v); ok {
 					vdata, badField, wantOK = b, true, false
 					rt.Hit("hsaccept.null-or-out-of-range-field")
 				}
